@@ -27,7 +27,7 @@ NewClient(lg, v111, http) ==
 InitO(tr) ==
     [tr |-> tr, conns |-> <<>>, ann |-> <<>>, norm |-> <<>>, keyn |-> <<>>,
      mqsubs |-> {}, mqpend |-> <<>>, handed |-> <<>>, window |-> {},
-     refetch |-> <<>>, ctrig |-> <<>>, resets |-> <<>>, thr |-> <<>>, stopping |-> FALSE, final |-> FALSE]
+     refetch |-> <<>>, ctrig |-> <<>>, resets |-> <<>>, thr |-> <<>>, stop |-> [l |-> 0, cause |-> "", open |-> {}], down |-> FALSE, hadStop |-> FALSE, final |-> FALSE]
 
 V(p, why, kf) == [p |-> p, tr |-> o.tr, l |-> l, why |-> why, kf |-> kf]
 
@@ -590,13 +590,18 @@ C09QViol(q) ==
             ELSE {V("C09", "cache entry " \o n \o " has use count " \o ToString(q.cache[n].count) \o " with " \o ToString(q.cache[n].subs) \o " subscribers and nothing in flight", "")}
             : n \in DOMAIN q.cache }
     \cup UNION { IF q.cache[n].locked THEN {V("C13", "resource queue of " \o n \o " still locked at quiescence", "")} ELSE {} : n \in DOMAIN q.cache }
-    \cup (IF q.gsubs < 0 \/ q.gres < 0 THEN {V("C09", "negative cache gauge " \o ToString(<<q.gres, q.gsubs>>), "")} ELSE {})
+    \cup (IF ~o.hadStop /\ (q.gsubs < 0 \/ q.gres < 0) THEN {V("C09", "negative cache gauge " \o ToString(<<q.gres, q.gsubs>>), "")} ELSE {})
 
 C11Viol(q) ==
     { V("C11", "closed connection " \o c \o " is still registered in the gateway", "")
       : c \in {x \in DOMAIN o.conns : o.conns[x].gone /\ x \in SeqToSet(q.conns)} }
 
+StopPendingViol ==
+    IF o.stop.l > 0 THEN {V("C20", "Stop did not complete within its bounded timeouts", "")} ELSE {}
+
 H_quiescent(r) ==
+    IF o.hadStop /\ (o.down \/ o.stop.l > 0) THEN Res(o, StopPendingViol)
+    ELSE
     IF ~r.drained THEN Res(o, {V("C15", "system does not reach quiescence (stall)", "")})
     ELSE
     LET live == {c \in DOMAIN o.conns : o.conns[c].alive /\ c \in SeqToSet(r.conns)}
@@ -606,6 +611,8 @@ H_quiescent(r) ==
            \cup C09QViol(r) \cup C11Viol(r) \cup C19QViol)
 
 H_final(r) ==
+    IF o.hadStop THEN Res([o EXCEPT !.final = TRUE], StopPendingViol)   \* cache and gauges are not cleaned by Stop; not judged
+    ELSE
     Res([o EXCEPT !.final = TRUE],
         (IF \E s \in SeqToSet(r.mqsubs) : s \notin {"system"}
          THEN {V("C09", "subscriptions left with no clients and nothing in flight: " \o ToString(r.mqsubs), "")} ELSE {})
@@ -614,8 +621,30 @@ H_final(r) ==
         \cup (IF r.conns # <<>> THEN {V("C11", "connections left: " \o ToString(r.conns), "")} ELSE {}))
 
 -----------------------------------------------------------------------------
+(* C20: fail-stop.  A Stop call or the loss of the messaging connection must  *)
+(* close every client socket, complete within its bounded timeouts and report *)
+(* the cause on the stop channel; while stopped nothing is accepted.          *)
+H_stop(r) ==
+    Res([o EXCEPT !.stop = [l |-> l, cause |-> r.cause, open |-> {c \in DOMAIN o.conns : o.conns[c].alive}]], {})
+
+H_stopped(r) ==
+    LET left == {c \in o.stop.open : o.conns[c].alive}
+        vs == (IF o.stop.l > 0 /\ r.err # o.stop.cause
+               THEN {V("C20", "stop channel reports \"" \o r.err \o "\" but the cause was \"" \o o.stop.cause \o "\"", "")} ELSE {})
+              \cup (IF left # {} THEN {V("C20", "client sockets still open after the service stopped: " \o ToString(left), "")} ELSE {})
+        \* everything the gateway held is gone with it
+        conns2 == [c \in DOMAIN o.conns |-> [o.conns[c] EXCEPT !.alive = FALSE, !.gone = TRUE, !.pend = <<>>]]
+    IN Res([o EXCEPT !.stop = [l |-> 0, cause |-> "", open |-> {}], !.down = TRUE, !.hadStop = TRUE, !.conns = conns2, !.mqsubs = {}, !.mqpend = <<>>,
+                     !.ann = [k \in DOMAIN o.ann |-> Unloaded], !.window = {}, !.thr = <<>>], vs)
+
 Handle(r) ==
     CASE r.e = "reset" -> Res(InitO(r.trace), {})
+      [] r.e = "stop" -> H_stop(r)
+      [] r.e = "stopped" -> H_stopped(r)
+      [] r.e = "stophang" -> Res(o, {V("C20", "Stop did not complete within its bounded timeouts", "")})
+      [] r.e = "started" -> Res([o EXCEPT !.down = FALSE], {})
+      [] r.e = "startfail" -> Res(o, {V("C20", "Start after Stop failed: " \o r.err, "")})
+      [] r.e = "openRefused" -> Res(o, IF r.upgraded THEN {V("C20", "a WebSocket connection was accepted while the service is stopped", "")} ELSE {})
       [] r.e = "open" -> H_open(r)
       [] r.e = "close" -> H_close(r)
       [] r.e = "sockClosed" -> H_close(r)
@@ -631,7 +660,7 @@ Handle(r) ==
       [] r.e = "quiescent" -> H_quiescent(r)
       [] r.e = "final" -> H_final(r)
       [] r.e = "stall" -> Res(o, {V("C15", "system does not reach quiescence (stall)", "")})
-      [] r.e = "panic" -> Res(o, {V("C15", "gateway process crashed: " \o r.msg, "")})
+      [] r.e = "panic" -> Res(o, {V("C15", "gateway process crashed: " \o r.msg, ""), V("C20", "gateway process crashed: " \o r.msg, "")})
       [] OTHER -> Res(o, {})
 
 Finish(vs) ==
